@@ -46,48 +46,39 @@ func hx(s string) string {
 // sanitize: the rune sequence Go's `[]rune(s)` sees (invalid bytes become U+FFFD). The model works on code points.
 func sanitize(s string) string { return string([]rune(s)) }
 
-// ---------- the pool of non-ASCII runes whose classes the Lean driver instance knows ----------
+// ---------- the pool of non-ASCII runes the generators draw from ----------
+// The Lean driver computes unicode.IsLetter / IsDigit / IsSpace from the tables of this very toolchain
+// (lean/Csvq/Model/Unicode.lean, Scanner.unicodeClasses), so every rune is inside the model; the pool only makes
+// letters, digits and spaces of several scripts — and near misses: letter numbers, other numbers, marks, connector
+// punctuation, format characters — frequent.
 
 type poolRune struct {
 	r                    rune
 	letter, digit, space bool
 }
 
-var pool = []poolRune{
-	{0xe9, true, false, false}, {0xc9, true, false, false}, {0xdf, true, false, false}, {0x1c6, true, false, false},
-	{0x17f, true, false, false}, {0x212a, true, false, false}, {0x131, true, false, false},
-	{0x3042, true, false, false}, {0x6f22, true, false, false}, {0x3a9, true, false, false}, {0x436, true, false, false},
-	{0x663, false, true, false}, {0xff13, false, true, false},
-	{0x85, false, false, true}, {0xa0, false, false, true}, {0x3000, false, false, true}, {0x2028, false, false, true}, {0x1680, false, false, true},
-	{0x20ac, false, false, false}, {0xd7, false, false, false}, {0x1f600, false, false, false}, {0xfffd, false, false, false},
-	{0xad, false, false, false}, {0x301, false, false, false}, {0x2160, false, false, false},
-}
+var poolRunes = []rune{0xe9, 0xc9, 0xdf, 0x1c6, 0x17f, 0x212a, 0x131, 0x3042, 0x6f22, 0x3a9, 0x436, 0x663, 0xff13, 0x85, 0xa0, 0x3000, 0x2028, 0x1680,
+	0x20ac, 0xd7, 0x1f600, 0xfffd, 0xad, 0x301, 0x2160,
+	// letters of further scripts: Greek, Cyrillic, Armenian, Hebrew, Arabic, Devanagari, Thai, Georgian (both cases), Cherokee, Hangul,
+	// Deseret and Adlam (four bytes), fullwidth Latin, a modifier letter, the feminine ordinal
+	0x3b1, 0x3c2, 0x42f, 0x561, 0x5d0, 0x639, 0x915, 0xe01, 0x10d0, 0x1c90, 0x13a0, 0xab70, 0xd55c, 0x10400, 0x10428, 0x1e900, 0x1e922, 0xff21, 0x2b0, 0xaa, 0x1c5, 0x130,
+	// decimal digits of further scripts: Devanagari, Bengali, Thai, Tibetan, fullwidth, mathematical bold (four bytes)
+	0x96b, 0x9e9, 0xe55, 0xf23, 0xff10, 0x1d7d1, 0x1e950,
+	// numbers that are no decimal digits, marks, connector punctuation, format characters, more spaces and near-spaces
+	0xb2, 0xbd, 0x2167, 0x3007, 0x93e, 0x203f, 0xfe33, 0x200b, 0x200d, 0xfeff, 0x2003, 0x205f, 0x202f, 0x180e, 0x2029}
 
-func checkPool() {
-	for _, p := range pool {
-		if unicode.IsLetter(p.r) != p.letter || unicode.IsDigit(p.r) != p.digit || unicode.IsSpace(p.r) != p.space {
-			panic(fmt.Sprintf("pool rune U+%04X: the unicode tables of this Go release disagree with the class recorded for the Lean instance", p.r))
-		}
+var pool = func() []poolRune {
+	ps := make([]poolRune, len(poolRunes))
+	for i, r := range poolRunes {
+		ps[i] = poolRune{r, unicode.IsLetter(r), unicode.IsDigit(r), unicode.IsSpace(r)}
 	}
-}
-
-var poolSet = func() map[rune]bool {
-	m := map[rune]bool{}
-	for _, p := range pool {
-		m[p.r] = true
-	}
-	return m
+	return ps
 }()
 
-// modelled: every rune is ASCII or from the pool (the model's letter/digit/space classes are exact there).
-func modelled(s string) bool {
-	for _, r := range s {
-		if r >= 0x80 && !poolSet[r] {
-			return false
-		}
-	}
-	return true
-}
+func checkPool() {}
+
+// modelled: every text is inside the model now (the classes of all runes are computed from the toolchain's tables).
+func modelled(s string) bool { return true }
 
 // ---------- rune string generator for the escape functions ----------
 
